@@ -167,8 +167,12 @@ func c06Check(r *vkit.Run, in c06Input) bool {
 		gv, ok := g.Labels[k]
 		switch {
 		case f.Opaque:
-			// nested value: rendering not compared; the label may be absent or hold any text
+			// nested value: the rendering is not compared, but the field must be exposed
 			wantKeys[k] = true
+			if !ok {
+				fail(fmt.Sprintf("field %s holds a nested value and is not exposed as a label at all", k), "label present")
+				return false
+			}
 		case f.Absent:
 			wantKeys[k] = true
 			if ok && gv != "" {
